@@ -126,6 +126,11 @@ class Observer:
         except ValueError as e:
             if "No channels found" in str(e) and not os.path.exists(os.path.join(chdir, "drf_properties.h5")):
                 r = None  # no channel yet: legitimately nothing to read
+                if finals:
+                    # ... unless data files have been published: the channel properties are put in place
+                    # before the first data file, so published samples are always readable
+                    errs.append(({"class": "data_files_published_without_channel_properties"},
+                                 "%s: %d data file(s) under their final names but no drf_properties.h5 - no reader can open the channel" % (label, len(finals))))
             else:
                 errs.append(({"class": "reader_constructor_failed", "exc": "ValueError"}, "%s: %r" % (label, e)))
                 return errs, union
